@@ -846,7 +846,7 @@ func main() {
 	sum := hx.GExploreAll(r, ms)
 	// keep only the findings that belong to this property (every monitor runs in every search)
 	for k := range sum.Found {
-		keep := strings.HasPrefix(k, *prop+"|") || strings.HasPrefix(k, "engine|")
+		keep := strings.HasPrefix(k, *prop+"|") || hx.KeptKey(k)
 		if *prop == "C08" && strings.HasPrefix(k, "panic|") {
 			keep = true
 		}
@@ -857,7 +857,7 @@ func main() {
 	if *prop == "C08" {
 		hx.GProbe(r, sum, ms, len(probes()), 400)
 		for k := range sum.Found {
-			if !(strings.HasPrefix(k, "C08|") || strings.HasPrefix(k, "panic|") || strings.HasPrefix(k, "engine|")) {
+			if !(strings.HasPrefix(k, "C08|") || strings.HasPrefix(k, "panic|") || hx.KeptKey(k)) {
 				delete(sum.Found, k)
 			}
 		}
